@@ -199,6 +199,22 @@ int main(int argc, char** argv) {
   }
   R.count("ebyte_strings", n3);
 
+  // 3b. E-host: all hosts of <= kh characters in each host template (no base; template 3 against two special bases)
+  {
+    int kh = int(A.geti("khost", T ? 6 : 5));
+    uint64_t n3b = 0;
+    for (size_t ti = 0; ti < host_templates().size(); ti++) {
+      auto& ht = host_templates()[ti];
+      n3b += enum_tokens(host_chars(), 1, kh, sh, ns, [&](const std::string& h, uint64_t) {
+        std::string s = ht.pre + h + ht.post;
+        if (ti == 3) { eval_case(s, &BASES[0]); eval_case(s, &BASES[4]); eval_case(s, &BASES[6]); }
+        else eval_case(s, nullptr);
+      });
+    }
+    R.count("ehost_strings", n3b);
+    extra["ehost_k"] = std::to_string(kh);
+  }
+
   // 4. bases as inputs, relative references against every base
   if (sh == 0) {
     for (auto& b : BASES) eval_all_bases(b.text);
